@@ -23,6 +23,7 @@ import (
 	"time"
 
 	"Havoc/cmd/server"
+	"Havoc/pkg/common/certs"
 	"Havoc/pkg/handlers"
 	"Havoc/pkg/packager"
 
@@ -205,6 +206,55 @@ func (w *world) apply(o op) {
 		if h := w.httpListener(o.name); h != nil && h.Config.PortBind == port {
 			w.ports[o.name] = port
 			w.waitHTTP(o.name, port)
+		}
+	case "addHTTPS":
+		// an HTTPS listener: with the certificate the teamserver generates (operator's add),
+		// or started the way a profile listener that names its own Cert/Key files is
+		port := freePort()
+		if o.arg == "generated" {
+			info := httpInfo(o.name, port, "UA1")
+			info["Secure"] = "true"
+			w.dispatch(L.Type, L.Add, info)
+		} else {
+			certA, keyA, err := certs.HTTPSGenerateRSACertificate("127.0.0.1")
+			_, keyB, err2 := certs.HTTPSGenerateRSACertificate("127.0.0.1")
+			if err != nil || err2 != nil {
+				w.panics = append(w.panics, "harness: cannot generate a certificate")
+				break
+			}
+			cp, kp := filepath.Join(w.ts.Root, "tls-"+o.name+".crt"), filepath.Join(w.ts.Root, "tls-"+o.name+".key")
+			switch o.arg {
+			case "key-of-another-cert":
+				keyA = keyB
+			case "key-not-pem":
+				keyA = []byte("not a key\n")
+			case "cert-not-pem":
+				certA = []byte("not a certificate\n")
+			}
+			os.WriteFile(cp, certA, 0o600)
+			os.WriteFile(kp, keyA, 0o600)
+			if o.arg == "key-missing" {
+				os.Remove(kp)
+			}
+			cfg := handlers.HTTPConfig{Name: o.name, Hosts: []string{"127.0.0.1"}, HostBind: "127.0.0.1", PortBind: port, PortConn: port, Uris: []string{"/u1"}, UserAgent: "UA1", Secure: true}
+			cfg.Cert.Cert, cfg.Cert.Key = cp, kp
+			func() {
+				defer func() {
+					if p := recover(); p != nil {
+						w.panics = append(w.panics, fmt.Sprintf("%v @ %s", p, seam.StackTop()))
+					}
+				}()
+				t.ListenerStart(handlers.LISTENER_HTTP, cfg)
+			}()
+		}
+		if h := w.httpListener(o.name); h != nil && h.Config.PortBind == port {
+			w.ports[o.name] = port
+			w.waitHTTP(o.name, port)
+			if o.arg != "generated" && o.arg != "usable-pair" {
+				// a start that failed may be followed by another attempt: let it come to its end
+				time.Sleep(300 * time.Millisecond)
+				w.waitHTTP(o.name, port)
+			}
 		}
 	case "addHTTPremoveNow":
 		// the operator removes the listener with the very next message: the goroutine that
@@ -669,6 +719,13 @@ func Run(r *ev.Run) {
 	if par.InBFSWorker() == "" {
 		bases := [][]op{{}, {{"addSMB", "n1", ""}}, {{"addHTTP", "n1", ""}}, {{"addExt", "n1", "e1"}}}
 		r.Bounds["remove_at_once_bases"] = len(bases)
+		// HTTPS listeners, added and removed: the generated certificate, a configured pair that
+		// works, and configured pairs that exist but cannot be used
+		tlsKinds := []string{"generated", "usable-pair", "key-of-another-cert", "key-not-pem", "cert-not-pem", "key-missing"}
+		r.Bounds["https_listener_kinds"] = tlsKinds
+		for _, k := range tlsKinds {
+			bases = append(bases, []op{{"addHTTPS", "n2", k}, {"remove", "n2", ""}})
+		}
 		par.RunStrict(r, len(bases), 10*time.Minute, func(i, n int, r *ev.Run) {
 			for bi, base := range bases {
 				if bi%n != i {
@@ -677,7 +734,11 @@ func Run(r *ev.Run) {
 				w := newWorld()
 				var hn []string
 				bad := false
-				for _, o := range append(append([]op{}, base...), op{"addHTTPremoveNow", "n2", ""}) {
+				hist := append(append([]op{}, base...), op{"addHTTPremoveNow", "n2", ""})
+				if len(base) > 0 && base[0].kind == "addHTTPS" {
+					hist = base
+				}
+				for _, o := range hist {
 					hn = append(hn, o.String())
 					w.apply(o)
 					if clause, what := w.invariants(o); clause != "" {
@@ -687,7 +748,7 @@ func Run(r *ev.Run) {
 					}
 				}
 				if !bad {
-					r.Outcome("ok/addHTTPremoveNow")
+					r.Outcome("ok/" + hist[0].String() + "/" + hist[len(hist)-1].kind)
 				}
 				r.Eval(1)
 				w.close()
